@@ -201,7 +201,7 @@ def run(P, R):
               ast.unparse(n.targets[0]) == 'self.master_identifier' and isinstance(n.value, ast.Constant)
               and n.value.value == '']
     ok = len(resets) == 1 and {tuple(f) for f in fm.at(resets[0])} == {
-        ('new_state != SupvisorsInstanceStates.RUNNING', True), ('new_state == SupvisorsInstanceStates.RUNNING', False),
+        ('new_state == SupvisorsInstanceStates.RUNNING', False), ('new_state == SupvisorsInstanceStates.RUNNING', False),
         ('identifier == self.master_identifier', True)}
     R.check(r3, ok, 'the Master is forgotten exactly when it leaves RUNNING', 'master-reset|update_instance_state',
             u.loc(resets[0] if resets else None), 'update_instance_state resets the Master under %s' %
@@ -211,7 +211,7 @@ def run(P, R):
     calls = [c for c in own_nodes(setter.node) if isinstance(c, ast.Call)
              and call_text(c) == 'self.supvisors.state_modes.update_instance_state']
     ok = len(calls) == 1 and [ast.unparse(a) for a in calls[0].args] == ['self.identifier', 'new_state'] and \
-        {tuple(f) for f in factmap(setter).at(calls[0])} <= {('self._state != new_state', True),
+        {tuple(f) for f in factmap(setter).at(calls[0])} <= {('self._state == new_state', False),
                                                              ('self._state == new_state', False),
                                                              ('self.check_transition(new_state)', True)}
     R.check(r3, ok, 'every instance state change is forwarded to update_instance_state', 'master-reset|state-setter',
